@@ -78,6 +78,8 @@ def explore(make, ops, depth, atol=1e-6, rtol=1e-6, fresh=reset_memo_caches, pre
         failures    list of (history names, why)  - last observation differs from the solo observation
         errors      list of (history names, exception repr) - an operation raised after a history although it does not raise alone
         nondeterministic  names of operations whose two solo runs differ (excluded from the comparison)
+        raises_alone      names of operations that raise on a fresh state (raises_alone_msg: their messages); every operation
+                          of an alphabet is a valid call, so the property modules report these as violations
     `prefixes_only_from`: optional set of op names allowed in non-final positions (the rest are only ever the final call).
     `mutators`: (name, fn) pairs of operations that are *specified* to change later answers (overwrite a component, append
     a row).  They occur in non-final positions only; the reference for a sequence is then the last operation on a fresh state
@@ -105,7 +107,7 @@ def explore(make, ops, depth, atol=1e-6, rtol=1e-6, fresh=reset_memo_caches, pre
             if not ok:
                 nondet.append(n)
             solo[n] = obs[0][1]
-    out = {"sequences": 0, "calls": 0, "failures": [], "errors": [], "nondeterministic": nondet, "raises_alone": sorted(solo_err)}
+    out = {"sequences": 0, "calls": 0, "failures": [], "errors": [], "nondeterministic": nondet, "raises_alone": sorted(solo_err), "raises_alone_msg": dict(solo_err)}
     usable = [n for n in names if n in solo and n not in nondet]
     mut = dict(mutators)
     inner = [n for n in usable if prefixes_only_from is None or n in prefixes_only_from] + list(mut)
